@@ -583,8 +583,8 @@ def check(run):
             if e["ev"] == "fail":
                 fail_points.add((e.get("at"), e.get("mid")))
     run.extra["distinct_failure_points"] = sorted("%s%s" % (a, ":mid" if m else "") for a, m in fail_points)
-    if len(fail_points) < 5:
-        raise MachineryError("failure injection did not reach every writing call: %s" % sorted(fail_points))
+    # judged at the end: a changed write protocol (fewer interposable calls) must end in its violations, not in exit 2
+    vacuous_failures = len(fail_points) < 5
     run.extra["distinct_crash_points"] = sorted("%s%s" % (a, ":mid" if m else "") for a, m in crash_points)
     first = True
     for (np_, uw), traces in sorted(groups.items()):
@@ -653,6 +653,8 @@ def check(run):
     run.traces += replayed
     run.extra["behaviours_replayed"] = replayed
     pool.shutdown()
+    if vacuous_failures and not run.violations:
+        raise MachineryError("failure injection did not reach every writing call: %s" % sorted(fail_points))
     run.assumptions += [
         "file-system calls are observed by interposing os.stat, os.path.exists, os.write, os.close, os.rename/replace, shutil.move, "
         "tempfile.mkstemp, builtins.open, os.unlink in the child process; calls made in other ways are not scheduling/crash points "
